@@ -98,10 +98,28 @@ Definition post_okb (k : nat) (p : option stmt) (b : list stmt) : bool :=
   end.
 Definition is_if (s : stmt) : bool := match s with SIf _ _ _ _ => true | _ => false end.
 
-(* a case body the proof covers: supported statements that never leave the clause by break
-   or fallthrough (the rewriter mistranslates a break that ends up inside a callback: finding F2) *)
+(* statements without any Yield (init / post statements are atoms) *)
+Fixpoint ny (k : nat) (s : stmt) {struct k} : bool :=
+  match k with 0 => false | S k =>
+    match s with
+    | SYield _ => false
+    | SBlock b => forallb (ny k) b
+    | SIf i _ t e => init_ok i && forallb (ny k) t &&
+                     match e with ENone => true | EElse b => forallb (ny k) b | EElif x => ny k x end
+    | SSwitch i _ cs => init_ok i && forallb (fun lb => forallb (ny k) (snd lb)) cs
+    | SFor i _ p b => init_ok i && init_ok p && forallb (ny k) b
+    | _ => true
+    end
+  end.
+
+(* a case body the proof covers: supported statements that either contain no Yield at all (the
+   rewriter keeps such a clause as it is, native break / fallthrough included), or never leave the
+   clause by break or fallthrough (the rewriter mistranslates a break that ends up inside a
+   callback: finding F2) *)
 Definition clause_ok (sup : stmt -> bool) (k : nat) (b : list stmt) : bool :=
-  forallb sup b && forallb (fitsb k) b && negb (has_break (S k) (SBlock b)) && forallb (okb k true true false) b.
+  forallb sup b &&
+  (forallb (ny k) b ||
+   (forallb (fitsb k) b && negb (has_break (S k) (SBlock b)) && forallb (okb k true true false) b)).
 
 Fixpoint supp (k : nat) (s : stmt) {struct k} : bool :=
   match k with 0 => false | S k =>
